@@ -86,14 +86,31 @@ class Model:
     pass
 
 
-def block_edges(blk):
+def edge_modes(spec):
+    """Reading a polyply .itp file makes edges from *every* interaction section for all blocks
+    and links read so far (PolyplyParser._make_edges); .ff parsing alone uses bonds, angles,
+    proper dihedrals and constraints. Returns ({block index: all?}, {link index: all?})."""
+    blocks, links = {}, {}
+    files = spec["files"]
+    for pos, fil in enumerate(files):
+        later_itp = any(f["kind"] == "itp" for f in files[pos:])
+        for i in fil["blocks"]:
+            blocks[i] = later_itp
+        for i in fil.get("links", []):
+            links[i] = later_itp
+    return blocks, links
+
+
+def block_edges(blk, all_sections=None):
     """intra-block atom edges (local indices); which sections make edges depends on the syntax."""
     edges = set()
     n = len(blk["atoms"])
+    if all_sections is None:
+        all_sections = blk["syntax"] == "itp"
     for it in blk["inter"]:
         if any(a >= n for a in it["atoms"]):
             continue
-        if blk["syntax"] == "ff":
+        if not all_sections:
             if it["sec"] not in EDGE_SECTIONS_FF or is_improper(it):
                 continue
         atoms = it["atoms"]
@@ -178,7 +195,8 @@ def all_links(spec):
     for fil in spec["files"]:
         if fil["kind"] == "ff":
             for i in fil["links"]:
-                links.append(dict(copy.deepcopy(spec["links"][i]), index=i))
+                links.append(dict(copy.deepcopy(spec["links"][i]), index=i,
+                                  all_edges=edge_modes(spec)[1].get(i, False)))
         else:
             for i in fil["blocks"]:
                 links += copy.deepcopy(dangling_links(spec["blocks"][i]))
@@ -197,6 +215,7 @@ def all_links(spec):
 def expected(spec, with_links=True):
     model = Model()
     blocks = {b["name"]: b for b in spec["blocks"]}
+    block_mode = {spec["blocks"][i]["name"]: flag for i, flag in edge_modes(spec)[0].items()}
     graph = spec["graph"]
     nodes = sorted(graph["nodes"], key=lambda nd: nd["resid"])
     model.undetermined = False
@@ -206,19 +225,36 @@ def expected(spec, with_links=True):
     model.inter = {}
     model.edges = set()
     first = 1
-    for ridx, nd in enumerate(nodes):
-        blk = blocks[nd["resname"]]
+    model.invalid = None
+    pos = 0
+    inst = 0
+    while pos < len(nodes):
+        nd = nodes[pos]
+        from_itp = nd.get("attrs", {}).get("from_itp")
+        blk = blocks[from_itp] if from_itp else blocks[nd["resname"]]
+        nblk_res = blk.get("multires", 1) if from_itp else 1
+        frag = nodes[pos:pos + nblk_res]
+        if from_itp and (len(frag) < nblk_res or any(f.get("attrs", {}).get("from_itp") != from_itp for f in frag)):
+            model.invalid = "fragment does not cover the multi-residue block"
+            return model
         n = len(blk["atoms"])
-        res = {"node": nd["id"], "resid": nd["resid"], "resname": nd["resname"], "block": blk,
-               "first": first, "natoms": n, "labels": dict(nd.get("attrs", {})), "index": ridx}
-        model.residues.append(res)
+        for j, fn in enumerate(frag):
+            local_atoms = [i for i, a in enumerate(blk["atoms"]) if (a["resid"] == j + 1 or not from_itp)]
+            ridx = len(model.residues)
+            res = {"node": fn["id"], "resid": fn["resid"], "resname": fn["resname"], "block": blk,
+                   "first": first + local_atoms[0], "natoms": len(local_atoms),
+                   "labels": dict(fn.get("attrs", {})), "index": ridx, "inst": inst}
+            model.residues.append(res)
         for local, atom in enumerate(blk["atoms"]):
-            attrs = {"atomname": atom["name"], "atype": atom["type"], "resname": nd["resname"],
+            fn = frag[atom["resid"] - 1] if from_itp else frag[0]
+            ridx = len(model.residues) - len(frag) + (atom["resid"] - 1 if from_itp else 0)
+            resname = atom["resname"] if from_itp else fn["resname"]
+            attrs = {"atomname": atom["name"], "atype": atom["type"], "resname": resname,
                      "charge": atom["charge"], "mass": atom["mass"]}
-            attrs.update(res["labels"])
-            model.atoms.append({"name": atom["name"], "type": atom["type"], "resid": nd["resid"],
-                                "resname": nd["resname"], "charge": atom["charge"], "mass": atom["mass"],
-                                "cgrp_block": atom["cgrp"], "res": ridx, "local": local,
+            attrs.update(fn.get("attrs", {}))
+            model.atoms.append({"name": atom["name"], "type": atom["type"], "resid": fn["resid"],
+                                "resname": resname, "charge": atom["charge"], "mass": atom["mass"],
+                                "cgrp_block": atom["cgrp"], "res": ridx, "local": local, "inst": inst,
                                 "sel": attrs})
         for it in blk["inter"]:
             if any(a >= n for a in it["atoms"]):
@@ -226,15 +262,18 @@ def expected(spec, with_links=True):
             atoms = tuple(first + a for a in it["atoms"])
             version = it["meta"].get("version", 1)
             model.inter[(it["sec"], atoms, version)] = {
-                "params": list(it["params"]), "guard": guard_of(it["meta"]), "src": ("block", ridx)}
-        for pair in block_edges(blk):
+                "params": list(it["params"]), "guard": guard_of(it["meta"]), "src": ("block", inst)}
+        for pair in block_edges(blk, block_mode.get(blk["name"])):
             a, b = tuple(pair)
             model.edges.add(frozenset((first + a, first + b)))
         first += n
+        pos += len(frag)
+        inst += 1
     model.block_inter = dict(model.inter)
     model.block_edges = set(model.edges)
     model.matches = []
     model.charge_override = {}
+    model.extra_inter = []
     if not with_links:
         return model
 
@@ -355,13 +394,74 @@ def expected(spec, with_links=True):
         for it in lnk["inter"]:
             atoms = tuple(m["atoms"][key] for key in it["atoms"])
             version = it["meta"].get("version", 1)
-            model.inter[(it["sec"], atoms, version)] = {
-                "params": list(it["params"]), "guard": guard_of(it["meta"]), "src": ("link", m["link"])}
+            key = (it["sec"], atoms, version)
+            value = {"params": list(it["params"]), "guard": guard_of(it["meta"]), "src": ("link", m["link"])}
+            prev = model.inter.get(key)
+            if prev is not None and prev["src"] == value["src"] and \
+                    (prev["params"], prev["guard"]) != (value["params"], value["guard"]):
+                # two matches of one link write different values to the same atoms: the
+                # statement orders links, not the matches of a single link
+                model.undetermined = True
+                model.notes.append("one link writes two values to the same atoms")
+            model.inter[key] = value
         _, _, atom_edges = link_pattern(lnk)
         for pair in atom_edges:
             a, b = tuple(pair)
             model.edges.add(frozenset((m["atoms"][a], m["atoms"][b])))
+    apply_mods(spec, model)
     return model
+
+
+PROTEIN_RESNAMES = ("GLY|ALA|CYS|VAL|LEU|ILE|MET|PRO|HYP|ASN|GLN|ASP|ASP0|GLU|GLU0|THR|SER|LYS|LYS0|"
+                    "ARG|ARG0|HIS|HISH|PHE|TYR|TRP").split("|")
+
+
+def apply_mods(spec, model):
+    """Terminal / requested modifications: only the named atoms of the target residue change;
+    the modification's interactions are added on those atoms."""
+    model.mods_applied = 0
+    model.extra_inter = []
+    mods = {m["name"]: m for m in spec.get("mods", [])}
+    if not mods:
+        return
+    targets = []
+    if spec.get("mods_cli"):
+        import re
+        for resspec, name in spec["mods_cli"]:
+            m = re.match(r"^(.*?)(\d+)$", resspec)
+            targets.append((int(m.group(2)), name))
+    else:
+        resids = [r["resid"] for r in model.residues]
+        targets = [(min(resids), "N-ter"), (max(resids), "C-ter")]
+    for resid, name in targets:
+        mod = mods[name]
+        res = [r for r in model.residues if r["resid"] == resid]
+        if not res:
+            model.invalid = "modification target does not exist"
+            return
+        res = res[0]
+        if res["resname"] not in PROTEIN_RESNAMES:
+            continue
+        local = {}
+        for i in range(res["natoms"]):
+            idx = res["first"] + i
+            local[model.atoms[idx - 1]["name"]] = idx
+        for at in mod["atoms"]:
+            if at["name"] in local:
+                atom = model.atoms[local[at["name"]] - 1]
+                rep = at.get("replace") or {}
+                if "atype" in rep:
+                    atom["type"] = rep["atype"]
+                if "charge" in rep:
+                    atom["charge"] = rep["charge"]
+                    model.charge_override.pop(local[at["name"]], None)
+        for it in mod["inter"]:
+            if any(a not in local for a in it["atoms"]):
+                model.invalid = "modification interaction names an atom the residue lacks"
+                return
+            model.extra_inter.append((it["sec"], tuple(local[a] for a in it["atoms"]), list(it["params"]),
+                                      guard_of(it.get("meta", {}))))
+        model.mods_applied += 1
 
 
 def expected_rows(model):
@@ -371,6 +471,9 @@ def expected_rows(model):
     for (sec, atoms, version), val in model.inter.items():
         rows[sec].append((canon_atoms(sec, atoms), tuple(canon_param(p) for p in val["params"]),
                           tuple(val["guard"]) if val["guard"] else None))
+    for sec, atoms, params, guard in getattr(model, "extra_inter", []):
+        rows[sec].append((canon_atoms(sec, atoms), tuple(canon_param(p) for p in params),
+                          tuple(guard) if guard else None))
     return {sec: sorted(v, key=repr) for sec, v in rows.items()}
 
 
